@@ -1143,7 +1143,10 @@ func runC14(r *Run, rng *Rng, tier string) error {
 		runOne14(r, genAPICase14(rng.Fork()), true)
 	}
 	for i := 0; i < 4*nAPI; i++ { // law oracles only
-		runOne14(r, genAPICase14(rng.Fork()), false)
+		g := rng.Fork()
+		c := genAPICase14(g)
+		runOne14(r, c, false)
+		lawSplit14(r, c, g)
 	}
 	for i := 0; i < nLaw; i++ {
 		g := rng.Fork()
